@@ -226,3 +226,28 @@ let string_of_op = function
   | Extend bs -> "e:" ^ hex_of_bytes bs
   | ExtendFmt bs -> "f:" ^ hex_of_bytes bs
 
+
+let canary = byte_tab.(0xEE)
+
+let rec int_of_nat = function O -> 0 | S n -> 1 + int_of_nat n
+
+let rec firstn_int k l = if k <= 0 then [] else match l with [] -> [] | x :: r -> x :: firstn_int (k - 1) r
+
+(* "width:poly:init:refin:refout:xorout" (hex numbers, 0/1 flags); checksum bytes = width/8
+   rounded up to the integer type the crc crate uses for that width *)
+let alg_of_string (s : string) : crc_alg * nat =
+  match String.split_on_char ':' s with
+  | [ w; poly; init; refin; refout; xorout ] ->
+    let wi = int_of_string w in
+    let nb = if wi <= 8 then 1 else if wi <= 16 then 2 else if wi <= 32 then 4 else if wi <= 64 then 8 else 16 in
+    ( { c_width = n_of_int wi; c_poly = n_of_hex poly; c_init = n_of_hex init; c_refin = refin = "1";
+        c_refout = refout = "1"; c_xorout = n_of_hex xorout },
+      nat_of_int nb )
+  | _ -> failwith ("bad crc algorithm " ^ s)
+
+let string_of_feed (r : feed_result) : string =
+  match r with
+  | Consumed -> "C"
+  | OverFull rem -> "O:" ^ hex_of_bytes rem
+  | DeserError rem -> "D:" ^ hex_of_bytes rem
+  | Success (v, rem) -> "S:" ^ string_of_value v ^ ":" ^ hex_of_bytes rem
